@@ -43,6 +43,7 @@ type Solver struct {
 	intMode   bool
 	intOK     map[uint32]bool
 	hiMemo    map[uint32]float64
+	curTimeout int
 	// script log of definitions, for cross-checking with another solver
 	defLines []string
 	logAll   bool
@@ -93,6 +94,19 @@ func NewIntSolver(name string, ts *TermStore, timeoutMs int) (*Solver, error) {
 	s.intMode = true
 	s.baseLine(intPrelude)
 	return s, nil
+}
+
+// SetTimeout changes the per-query time limit of the running solver.
+func (s *Solver) SetTimeout(ms int) {
+	if s == nil || s.curTimeout == ms {
+		return
+	}
+	s.curTimeout = ms
+	if s.name == "cvc5" {
+		s.send(fmt.Sprintf("(set-option :tlimit-per %d)", ms))
+	} else {
+		s.send(fmt.Sprintf("(set-option :timeout %d)", ms))
+	}
 }
 
 func (s *Solver) Close() {
